@@ -37,7 +37,8 @@ LEAN_TY = {"Nat": "Nat", "Int": "Int", "Bool": "Bool", "OptNat": "Option Nat", "
            "Info": "PM.Info", "Res": "PM.Res", "Toks": "List PM.Token", "Strids": "List (Char × Nat)",
            "NatList": "List Nat", "CharList": "List Char", "YMD": "PM.YMD", "NatPair": "Nat × Nat",
            "NatOptPair": "Nat × Option Nat", "OptPair": "Option (Nat × Nat)", "Unit": "Unit",
-           "TokPair": "PM.Token × PM.Token", "NumRet": "Nat × PM.Ymd × PM.Res", "DecimalV": "PPy.DecimalV", "FoldDt": "PPy.FoldDt"}
+           "TokPair": "PM.Token × PM.Token", "NumRet": "Nat × PM.Ymd × PM.Res",
+           "StepRet": "List PM.Token × Nat × PM.Res × PM.Ymd × List Nat", "OptFloat": "Option Unit", "DecimalV": "PPy.DecimalV", "FoldDt": "PPy.FoldDt"}
 PAIR_TYPES = {"NatPair": ("Nat", "Nat"), "NatOptPair": ("Nat", "OptNat"), "TokPair": ("Tok", "Tok")}
 # (methods of `parser` that are themselves translated: PARSER_METHODS below)
 
@@ -64,7 +65,8 @@ class PFn:
     """one Lean function to produce from one Python function"""
 
     def __init__(self, qualname, leanname, params, ret, self_type=None, ctx=(), returns=None, locals_=None,
-                 inlines=()):
+                 inlines=(), part=None):
+        self.part = part                # None = the whole function; "while-body" = the body of its (only) `while` loop
         self.qualname = qualname
         self.leanname = leanname
         self.params = params            # [(pyname, type)] excluding self
@@ -156,6 +158,9 @@ class Tr:
             return self.attr(e, pre)
         if isinstance(e, ast.UnaryOp) and isinstance(e.op, ast.Not):
             return self.bool_of(self.C(e, pre)), "Bool"
+        if isinstance(e, ast.UnaryOp) and isinstance(e.op, ast.USub) and isinstance(e.operand, ast.Constant) \
+                and isinstance(e.operand.value, int):
+            return "(-%d)" % e.operand.value, "Int"
         if isinstance(e, ast.UnaryOp) and isinstance(e.op, ast.USub):
             t, ty = self.E(e.operand, pre)
             return "(-%s)" % self.coerce(t, ty, "Int", pre), "Int"
@@ -280,6 +285,18 @@ class Tr:
             t = self.fresh("dim")
             pre.append((t, "PM.monthrange %s %s" % (self.coerce(y, ty, "Int", pre), self.coerce(m, tm, "Int", pre)), "Int"))
             return t, "Int"
+        if isinstance(v, ast.Tuple) and len(v.elts) == 2 and all(isinstance(x, (ast.Constant, ast.UnaryOp)) for x in v.elts):
+            # (a, b)[cond]: False picks a, True picks b
+            c = self.C(e.slice, pre)
+            a, ta = self.E(v.elts[0], pre); b, tb = self.E(v.elts[1], pre)
+            if ta == "Static" and tb == "Static":
+                a, b, ty = "(PM.tk \"%s\")" % a.v, "(PM.tk \"%s\")" % b.v, "Tok"
+            elif {ta, tb} <= {"Nat", "Int"}:
+                a, b, ty = self.coerce(a, ta, "Int"), self.coerce(b, tb, "Int"), "Int"
+            else:
+                raise Untranslatable("tuple literal of %s, %s indexed by a condition" % (ta, tb))
+            if isinstance(c, bool): return (b if c else a), ty
+            return "(if %s then %s else %s)" % (c, b, a), ty
         base, bt = self.E(v, pre)
         if bt == "Tok" and isinstance(e.slice, ast.Slice):
             sl = e.slice
@@ -347,6 +364,10 @@ class Tr:
                 if ty == "Tok": return "true", "StaticBool"
                 if ty in ("Dec", "Nat", "Int"): return "false", "StaticBool"
                 raise Untranslatable("hasattr(%s, '__len__')" % ty)
+            if n == "str" and len(e.args) == 1:
+                t, ty = self.E(e.args[0], pre)
+                if ty not in ("Int", "Nat"): raise Untranslatable("str() of %s" % ty)
+                return "(PPy.strOfInt %s)" % self.coerce(t, ty, "Int"), "Tok"
             if n == "Decimal" and len(e.args) == 1:
                 t, ty = self.E(e.args[0], pre)
                 if ty != "Tok": raise Untranslatable("Decimal(%s)" % ty)
@@ -422,8 +443,15 @@ class Tr:
                 kx, tk = self.E(e.args[0], pre)
                 if tk != "Tok": raise Untranslatable("dict.get(%s)" % tk)
                 return "(PM.lookupLast %s %s)" % (recv, kx), "OptInt"
-            if rt == "Info" and f.attr == "convertyear" and len(e.args) == 2:
-                a, ta = self.E(e.args[0], pre); b, tb = self.E(e.args[1], pre)
+            if rt == "Info" and f.attr == "tzoffset" and len(e.args) == 1:
+                a, ta = self.E(e.args[0], pre)
+                a = self.coerce(a, ta, "Tok", pre) if ta != "OptTok" else self.opt_tok(a, pre)
+                x = self.fresh("q")
+                pre.append((x, "Gen.P.info_tzoffset %s %s" % (recv, a), "OptInt"))
+                return x, "OptInt"
+            if rt == "Info" and f.attr == "convertyear" and len(e.args) in (1, 2):
+                a, ta = self.E(e.args[0], pre)
+                b, tb = self.E(e.args[1], pre) if len(e.args) == 2 else ("false", "Bool")     # century_specified=False
                 if tb != "Bool": raise Untranslatable("convertyear(_, %s)" % tb)
                 x = self.fresh("y")
                 pre.append((x, "Gen.convertyear ⟨%s.century, %s.year⟩ %s %s" % (recv, recv, self.coerce(a, ta, "Int", pre), b), "Int"))
@@ -594,7 +622,7 @@ class Tr:
             if tl in ("Nat", "Int", "Tok", "Dec"): return (not pos), ("none", "None")
             if tl == "None": return pos, ("none", "None")
             if tl == "Label": return "(%s %s PM.Label.none)" % (l, "=" if pos else "≠"), ("none", "None")
-            if tl in ("OptNat", "OptInt", "OptTok"): return "(%s %s none)" % (l, "=" if pos else "≠"), ("none", "None")
+            if tl in ("OptNat", "OptInt", "OptTok", "OptFloat"): return "(%s %s none)" % (l, "=" if pos else "≠"), ("none", "None")
             raise Untranslatable("is None on %s" % tl)
         if isinstance(op, (ast.In, ast.NotIn)):
             neg = isinstance(op, ast.NotIn)
@@ -678,6 +706,9 @@ class Tr:
                 for t in s.targets:
                     for el in (t.elts if isinstance(t, ast.Tuple) else [t]):
                         add(self.target_name(el))
+                if isinstance(s.value, ast.Call) and isinstance(s.value.func, ast.Attribute) and s.value.func.attr == "_parse_numeric_token":
+                    for a in s.value.args[3:5]:
+                        if isinstance(a, ast.Name): add(a.id)
             elif isinstance(s, ast.AugAssign):
                 add(self.target_name(s.target))
             elif isinstance(s, ast.If):
@@ -869,6 +900,22 @@ class Tr:
         """try: return <expr with one D[key]>  except KeyError: S"""
         if len(s.handlers) == 1 and isinstance(s.handlers[0].type, ast.Name) and s.handlers[0].type.id == "Exception":
             return self.try_exception(s, rest, k, live_out)
+        h0 = s.handlers[0] if len(s.handlers) == 1 else None
+        if h0 is not None and isinstance(h0.type, ast.Name) and h0.type.id == "ValueError" and not s.orelse and not s.finalbody \
+                and len(s.body) == 1 and isinstance(s.body[0], ast.Assign) and isinstance(s.body[0].targets[0], ast.Name) \
+                and isinstance(s.body[0].value, ast.Call) and isinstance(s.body[0].value.func, ast.Name) \
+                and s.body[0].value.func.id == "float" and len(s.body[0].value.args) == 1 and len(h0.body) == 1 \
+                and isinstance(h0.body[0], ast.Assign) and isinstance(h0.body[0].targets[0], ast.Name) \
+                and h0.body[0].targets[0].id == s.body[0].targets[0].id and isinstance(h0.body[0].value, ast.Constant) \
+                and h0.body[0].value.value is None:
+            # try: v = float(tok)  except ValueError: v = None      (only `v is None` is ever asked)
+            pre = []
+            a, ta = self.E(s.body[0].value.args[0], pre)
+            if ta != "Tok": raise Untranslatable("float(%s)" % ta)
+            n = s.body[0].targets[0].id
+            self.types[n] = "OptFloat"; self.static.pop(n, None)
+            return self.wrap(pre, "let %s : Option Unit := (if PM.floatOk cls %s = true then some () else none)\n%s" % (
+                self.lname(n), a, self.B(rest, k, live_out)))
         if len(s.handlers) != 1 or s.orelse or s.finalbody or len(s.body) != 1 or not isinstance(s.body[0], ast.Return):
             raise Untranslatable("try statement shape")
         h = s.handlers[0]
@@ -934,6 +981,17 @@ class Tr:
             self.static[target.id] = tuple((x.elts[0].value, self.E(x.elts[1], pre)) for x in value.elts)
             if pre: raise Untranslatable("raising element in a static tuple")
             return nxt()
+        if isinstance(target, ast.Name) and isinstance(value, ast.Call) and isinstance(value.func, ast.Attribute) \
+                and value.func.attr == "_parse_numeric_token" and self.types.get("self") == "Parser":
+            names = [a.id if isinstance(a, ast.Name) else None for a in value.args]
+            if len(names) != 6 or None in names or [self.types.get(n) for n in names] != ["Toks", "Nat", "Info", "Ymd", "Res", "Bool"] \
+                    or names[2] != "info":
+                raise Untranslatable("arguments of self._parse_numeric_token")
+            x = self.fresh("r")
+            pre.append((x, "Gen.P.parseNumericToken cls info %s %s %s %s %s" % (names[0], names[1], names[3], names[4], names[5]), "NumRet"))
+            out = self.bind_name(target.id, x + ".1", "Nat", pre)
+            out += "let %s := %s.2.1\nlet %s := %s.2.2\n" % (names[3], x, names[4], x)
+            return self.wrap(pre, out + nxt())
         t, ty = self.E(value, pre)
         if isinstance(target, ast.Name):
             if ty == "Static":
@@ -954,6 +1012,13 @@ class Tr:
             if ty == "Static" and fty == "OptTok": t, ty = "(PM.tk \"%s\")" % t.v, "Tok"
             t = self.coerce(t, ty, fty, pre)
             return self.wrap(pre, "let %s := { %s with %s := %s }\n%s" % (obj, obj, f, t, nxt()))
+        if isinstance(target, ast.Subscript) and isinstance(target.value, ast.Name) and self.types.get(target.value.id) == "Toks":
+            d = target.value.id
+            ix, ti = self.E(target.slice, pre)
+            if ti != "Nat": raise Untranslatable("token list index of type %s" % ti)
+            # `l[k] = v` for an index already read (`l[k]` evaluated in `value`): IndexError otherwise
+            return self.wrap(pre, "Except.bind (PPy.toksSet %s %s %s) (fun l_ =>\nlet %s := l_\n%s)" % (
+                d, ix, self.coerce(t, ty, "Tok", pre), self.lname(d), nxt()))
         if isinstance(target, ast.Subscript) and isinstance(target.value, ast.Name) and self.types.get(target.value.id) == "Strids":
             d = target.value.id
             kx, tk = self.E(target.slice, pre)
@@ -998,8 +1063,14 @@ class Tr:
             return self.wrap(pre, "(if %s then\n%s\nelse\n%s)" % (c, thn, els))
         live = self.live_in(rest, live_out)
         vs = [v for v in self.assigned([s]) if v in live]
+        def never_falls(stmts):
+            if not stmts: return False
+            last = stmts[-1]
+            if isinstance(last, (ast.Raise, ast.Return)): return True
+            return isinstance(last, ast.If) and never_falls(last.body) and never_falls(last.orelse)
         for v in vs:
-            if v not in saved[0] and not (v in self.assigned(s.body) and v in self.assigned(s.orelse)):
+            if v not in saved[0] and not ((v in self.assigned(s.body) or never_falls(s.body))
+                                          and (v in self.assigned(s.orelse) or never_falls(s.orelse))):
                 raise Untranslatable("variable %s assigned in one branch only and used later" % v)
         tys = []
 
@@ -1030,7 +1101,7 @@ class Tr:
             self.types["self"] = "Parser"
             self.types["info"] = "Info"
         declared = dict(sp.params)
-        for a in fn.args.args:
+        for a in (fn.args.args if sp.part is None else []):
             n = a.arg
             if n == "self": continue
             if n not in declared: raise Untranslatable("parameter %s of %s has no declared type" % (n, sp.qualname))
@@ -1038,6 +1109,18 @@ class Tr:
             self.types[n] = declared[n]
             if not (n == "info" and sp.self_type == "Parser"):
                 params.append("(%s : %s)" % (self.lname(n), lty(declared[n])))
+        stmts = fn.body
+        if sp.part == "while-body":
+            loops = [n for n in ast.walk(fn) if isinstance(n, ast.While)]
+            if len(loops) != 1 or loops[0].orelse: raise Untranslatable("%s: exactly one while loop is expected" % sp.qualname)
+            if any(isinstance(n, (ast.Break, ast.Continue, ast.Return)) for st in loops[0].body for n in ast.walk(st)):
+                raise Untranslatable("break / continue / return inside the loop")
+            stmts = loops[0].body
+            for n, t in sp.params:
+                if t != "Skip" and n not in self.types:
+                    self.types[n] = t
+                    if not (n == "info" and sp.self_type == "Parser"):
+                        params.append("(%s : %s)" % (self.lname(n), lty(t)))
         if sp.returns:
             k = lambda: ".ok %s" % self.returns_text()
             live = set(sp.returns) if isinstance(sp.returns, list) else {sp.returns}
@@ -1045,7 +1128,7 @@ class Tr:
             def k():
                 raise Untranslatable("control falls off the end of the function")
             live = set()
-        body = self.B(fn.body, k, live)
+        body = self.B(stmts, k, live)
         return "/-- translated from `%s:%s`%s -/\ndef %s %s : Py.R (%s) :=\n%s\n" % (
             relfile, sp.qualname, " (%s)" % ", ".join("%s : %s" % p for p in sp.params) if sp.params else "",
             sp.leanname, " ".join(params), lty(sp.ret), body)
@@ -1122,6 +1205,11 @@ PARSER_SPECS = [
     PFn("parser._parse_numeric_token", "parseNumericToken",
         [("tokens", "Toks"), ("idx", "Nat"), ("info", "Info"), ("ymd", "Ymd"), ("res", "Res"), ("fuzzy", "Bool")], "NumRet",
         self_type="Parser", ctx=[CLS], returns=["idx", "ymd", "res"], locals_={"idx": "Nat"}, inlines=YMD_PROPS),
+    PFn("parser._parse", "parseStep",
+        [("l", "Toks"), ("i", "Nat"), ("len_l", "Nat"), ("info", "Info"), ("res", "Res"), ("ymd", "Ymd"),
+         ("skipped_idxs", "NatList"), ("fuzzy", "Bool"), ("timestr", "Skip")], "StepRet", self_type="Parser", ctx=[CLS],
+        returns=["l", "i", "res", "ymd", "skipped_idxs"], part="while-body", inlines=YMD_PROPS,
+        locals_={"hour_offset": "Nat", "min_offset": "Nat"}),
 ]
 
 
